@@ -330,7 +330,20 @@ where
     R: std::io::Read,
 {
     fn read(&mut self, buf: &mut [u8]) -> std::io::Result<usize> {
-        self.fill_inner()?;
+        // A single step can end in a state that has nothing to hand out yet
+        // (e.g. `Data` for an empty source). Keep going, `Ok(0)` is reserved for `Done`.
+        loop {
+            self.fill_inner()?;
+            let is_ready = match self {
+                Self::Prefix { prefix, .. } => prefix.has_remaining(),
+                Self::Data { buffer, .. } => buffer.has_remaining(),
+                Self::Mdc { mdc } => mdc.has_remaining(),
+                Self::Done | Self::Unknown => true,
+            };
+            if is_ready {
+                break;
+            }
+        }
         match self {
             Self::Prefix { prefix, .. } => {
                 // Prefix
